@@ -4,6 +4,7 @@ import ClusterVerif.Gen.C01Commit
 import ClusterVerif.Model.C01Gate
 import ClusterVerif.Lemmas.C01Shutdown
 import ClusterVerif.Gen.C01Shutdown
+import ClusterVerif.Spec.C01Folder
 
 /-!
 # C01 — Raft: every replica's pinset equals the committed pin/unpin sequence
@@ -796,3 +797,81 @@ example : shutdownDurableFrom []
   decide
 
 end CV.C01
+
+/-! ## Round 8b: the data-folder tools (`SnapshotSave` / `CleanupRaft` / `Consensus.Clean` / `OfflineState`), `Model/C01Folder`
+
+The model is the INTENDED behaviour; the real `SnapshotSave` deviates from it after an import over an existing snapshot
+(the Raft term restarts below the imported snapshot's term: proposal K01e in notes/C01.md) — the suite `fold` reports that
+as a failure of `folder_exact` on the implementation's observations. -/
+namespace CV.C01.Folder
+
+/-- invariant: readers see `ref`, and a running node whose FSM holds no state serves the empty state over an empty folder -/
+def Inv (s : St) (ref : List Nat) : Prop :=
+  visible s = ref ∧ (s.up = true → s.init = false → s.live = [] ∧ s.snap = none)
+
+theorem inv_step (s : St) (ref : List Nat) (st : Step) (h : Inv s ref) :
+    Inv (step s st).1 (refStep ref st (step s st).2) ∧ (step s st).1.up = upAfter s.up st ∧
+    ¬ (s.up = true ∧ st = .clean ∧ (step s st).2 = .ok) := by
+  obtain ⟨hv, hi⟩ := h
+  cases st <;> cases hu : s.up <;> cases hn : s.init <;> cases hs : s.snap <;>
+    simp_all [step, visible, refStep, upAfter, Inv]
+
+/-- every history of starts, LogPin/LogUnpin, forced snapshots, clean shutdowns, offline reads, imports and cleanups,
+    from an empty folder: every observation shows exactly the acknowledged state (an import replaces it, a cleanup empties
+    it), and no cleanup is acknowledged under a running node -/
+theorem folder_model_meets_spec_from (steps : List Step) : ∀ (s : St) (ref : List Nat), Inv s ref →
+    specFrom s.up ref (runTrace s steps) = (true, true) := by
+  induction steps with
+  | nil => intro s ref _; rfl
+  | cons st rest ih =>
+    intro s ref h
+    obtain ⟨h1, h2, h3⟩ := inv_step s ref st h
+    have := ih (step s st).1 _ h1
+    simp only [runTrace, specFrom]
+    rw [← h2, this]
+    have hv : visible (step s st).1 = refStep ref st (step s st).2 := h1.1
+    simp [hv]
+    by_cases hu : s.up = true
+    · by_cases hc : st = Step.clean
+      · exact Or.inr (fun hr => h3 ⟨hu, hc, hr⟩)
+      · exact Or.inl (Or.inr hc)
+    · exact Or.inl (Or.inl (by simpa using hu))
+
+theorem folder_model_meets_spec (steps : List Step) : foldHolds (runTrace {} steps) = true := by
+  have h := folder_model_meets_spec_from steps {} [] (by simp [Inv, visible])
+  simp [foldHolds, foldClauses]
+  exact ⟨by simpa using congrArg Prod.fst h, by simpa using congrArg Prod.snd h⟩
+
+example : foldHolds (runTrace {} [.restart, .pin 7, .shutdown, .importSt [3, 0, 2], .offline, .restart, .clean, .pin 5,
+    .shutdown, .offline, .clean, .offline]) = true := by decide
+
+/-- after an import the folder shows exactly the imported state, the next start serves it, and an operation
+    acknowledged then is applied on top of it and survives the shutdown -/
+theorem import_restart_op_shutdown (s : St) (m : List Nat) (c : Nat) (hd : s.up = false) :
+    let s1 := (step s (.importSt m)).1
+    let s2 := (step s1 .restart).1
+    let s3 := (step s2 (.pin c)).1
+    let s4 := (step s3 .shutdown).1
+    visible s1 = norm m ∧ visible s2 = norm m ∧ visible s3 = ins c (norm m) ∧ visible s4 = ins c (norm m) := by
+  simp [step, visible, hd]
+
+/-- a cleanup is refused under a running node and empties the folder of a stopped one, whatever it held -/
+theorem clean_guarded (s : St) :
+    (s.up = true → step s .clean = (s, .refused)) ∧ (s.up = false → visible (step s .clean).1 = []) := by
+  constructor <;> intro h <;> simp [step, visible, h]
+
+/-- refuted alternative: without the guard a cleanup under a running node is acknowledged (`clean_guard` fails) and
+    the acknowledged pin is gone after the shutdown + start that follows … -/
+theorem unguarded_clean_fails :
+    let tr : List Obs := [⟨.restart, .ok, []⟩, ⟨.pin 1, .ok, [1]⟩, ⟨.clean, .ok, [1]⟩]
+    foldHolds tr = false ∧ (stepUnguardedClean { up := true, init := true, live := [1], snap := some [1] } .clean).2 = .ok := by
+  decide
+
+/-- refuted alternative: an import written BELOW the existing newest snapshot is not what readers get -/
+theorem stale_import_fails :
+    let s : St := { up := false, init := true, live := [7], snap := some [7] }
+    visible (stepStaleImport s (.importSt [0, 2])).1 = [7] ∧
+    foldHolds [⟨.importSt [0, 2], .kept, [7]⟩] = false := by
+  decide
+
+end CV.C01.Folder
